@@ -9,6 +9,11 @@ closest ancestor-or-self of the normalised resource path that carries a grant; p
 trailing slashes) never widen access, writes are additionally checked against the target database, and
 distinct database names never map to the same resource.
 
+Two defects found by this check are repaired in /repo (fix commits d662ebb: `all` granted together with another
+privilege did not grant the rest; 06df506: NewUser kept one of several grants that clean to the same path,
+chosen by map iteration order); their counterexamples on the OLD code stay here as theorems
+(`authorizedOld_refuses_all_plus_other`, `newUserOld_order_dependent`), the model follows the repaired code.
+
 All theorems quantify over ALL strings, tables, accounts, requests (no size bound). The last clause is FALSE of
 the code (finding `db-collision`): the full statement is `database_resource_injective_stmt`, its negation is
 proved (`database_resource_not_injective`), the collisions are characterised exactly
@@ -28,7 +33,8 @@ def caseKnown : Gen.MethodCase → Bool
 /-- The translator recognised every shape it looked at in auth.go / handler.go (it fails closed: an
 unrecognised shape lands in `Gen.problems` or as an `unknown` case and this theorem stops checking). -/
 theorem gen_recognised :
-    Gen.problems = [] ∧ Gen.earlyAllowShape = .noPrivilegesOrAdmin ∧ Gen.authorizedShape = .andNonZeroOrEqAll ∧
+    Gen.problems = [] ∧ Gen.earlyAllowShape = .noPrivilegesOrAdmin ∧ Gen.authorizedShape = .andNonZeroOrAllBit ∧
+    Gen.newUserStoreShape = .storeOr ∧
     Gen.dbReplaceOld = ['/'] ∧ Gen.dbReplaceNew = ['_'] ∧ Gen.methodCases.all caseKnown = true ∧
     Gen.authMethods.length = 3 := by
   decide
@@ -114,32 +120,52 @@ theorem nearest_grant_only (a : Account) (resource : Path) (want : Nat) :
           | none => .deny :=
   authorizeAction_eq_nearest a resource want
 
-/-- **The statement's bounds**: allowed ⇒ the wanted privilege (or `all`) is listed on the nearest granted
-ancestor ("only if"), and listed there (or the list is just `all`) ⇒ allowed. Tables and the wanted privilege
-range over the five declared privileges. -/
-theorem decision_within_bounds (a : Account) (resource : Path) (want : Nat)
+/-- **The decision IS the statement's reference decision**: allowed iff `none` is wanted, or the user is admin,
+or the resource is rooted and the privilege list on the nearest granted ancestor-or-self of its node contains the
+wanted privilege or `all`. Tables and the wanted privilege range over the five declared privileges. -/
+theorem decision_is_reference (a : Account) (resource : Path) (want : Nat)
     (hv : ∀ g ∈ a.grants, g.2.all validPriv = true) (hw : validPriv want = true) :
-    (authorizeAction a.user resource want = .allow → mayAllow a resource want = true) ∧
-    (mustAllow a resource want = true → authorizeAction a.user resource want = .allow) :=
-  ⟨allow_mayAllow a resource want hv hw, mustAllow_allow a resource want hw⟩
+    authorizeAction a.user resource want = .allow ↔ mayAllow a resource want = true :=
+  allow_iff_mayAllow a resource want hv hw
 
 /-- The spec oracle the driver evaluates on the implementation's answers accepts the model's answer. -/
 theorem model_passes_oracle (a : Account) (resource : Path) (want : Nat)
     (hv : ∀ g ∈ a.grants, g.2.all validPriv = true) (hw : validPriv want = true) :
     judgeDecision a resource want (authorizeAction a.user resource want == .allow) = none := by
-  have hb := decision_within_bounds a resource want hv hw
+  have hb := decision_is_reference a resource want hv hw
   unfold judgeDecision
   cases hd : (authorizeAction a.user resource want == Decision.allow) with
   | true =>
     have : authorizeAction a.user resource want = .allow := by simpa using hd
-    simp [hb.1 this]
+    simp [hb.mp this]
   | false =>
     have hne : authorizeAction a.user resource want ≠ .allow := by simpa using hd
-    have : mustAllow a resource want = false := by
-      cases hm : mustAllow a resource want with
+    have : mayAllow a resource want = false := by
+      cases hm : mayAllow a resource want with
       | false => rfl
-      | true => exact absurd (hb.2 hm) hne
+      | true => exact absurd (hb.mpr hm) hne
     simp [this]
+
+/-- **The decision is a function of the table, not of Go's map iteration order**: `NewUser` called on any
+permutation of the same grants decides every action the same way. -/
+theorem newUser_order_independent (admin : Bool) (g₁ g₂ : List (Path × List Nat)) (h : g₁.Perm g₂)
+    (resource : Path) (want : Nat) :
+    authorizeAction (newUser admin g₁) resource want = authorizeAction (newUser admin g₂) resource want :=
+  authorize_perm admin g₁ g₂ h resource want
+
+/-- Counterexample on the code as it was (repaired by 06df506): "/a" ↦ [read] and "/a/" ↦ [write] clean to the
+same path; whichever entry the map iteration visited last decided (replayed by corpus/C20/fixed-newuser-order.ops). -/
+theorem newUserOld_order_dependent :
+    ∃ g₁ g₂ : List (Path × List Nat), g₁.Perm g₂ ∧
+      authorizeAction (newUserOld false g₁) "/a".toList 4 ≠ authorizeAction (newUserOld false g₂) "/a".toList 4 :=
+  ⟨[("/a".toList, [2]), ("/a/".toList, [4])], [("/a/".toList, [4]), ("/a".toList, [2])],
+   List.Perm.swap _ _ _, by decide⟩
+
+/-- Counterexample on the code as it was (repaired by d662ebb): the mask of [all, read] is not `== AllPrivileges`,
+so write was refused although `all` is granted (replayed by corpus/C20/fixed-all-plus-other.ops). -/
+theorem authorizedOld_refuses_all_plus_other :
+    authorizedOld (orMask [16, 2]) 4 = false ∧ listed [16, 2] 4 = true ∧ authorized (orMask [16, 2]) 4 = true := by
+  decide
 
 /-- **A nearer grant wins over a farther one**: when the node itself carries a grant, that grant alone decides,
 whatever its ancestors carry. -/
@@ -195,65 +221,121 @@ theorem default_clause_behaviour :
     authorizeRequest "HEAD".toList "/kapacitor/v1/ping".toList {} = true := by
   decide
 
-/-- **unauthenticated_never_served**: with authentication enabled, whenever a route handler ran or points were
-written, the request presented valid credentials (password, bearer token or subscription token) for an account
-of the auth service, and the URL path was not a path trick (the mux redirects those). Any route table whose
-extra routes are ordinary handlers; any fuel. -/
-theorem unauthenticated_never_served (cfg : Cfg) (hauth : cfg.requireAuth = true)
-    (hextra : ∀ r ∈ cfg.extra, r.kind = .recorder) (fuel : Nat) (req : Req)
-    (h : (serveHTTP cfg fuel req).served = true ∨ (serveHTTP cfg fuel req).wrote = true) :
-    validAccounts cfg.svc req.auth ≠ [] ∧ muxCleanPath req.path = req.path := by
-  obtain ⟨hcp, _, acc, w, hau, _, _⟩ := serveHTTP_sound cfg hextra fuel req _ rfl h
-  rw [hauth] at hau
-  have := (authenticate_valid cfg.svc req.auth acc w hau).2
-  refine ⟨?_, hcp⟩
-  intro e
-  rw [e] at this
-  cases this
+/-- **Which routes skip authentication at all** (read off the Route literals of NewHandler on every run): only
+routes marked `BypassAuth`, and those are exactly GET routes below "/kapacitor/v1/debug/" with plain handlers
+(pprof index/cmdline/profile/symbol/trace, expvar); `addRawRoute` honours the mark only when pprof is exposed,
+and never for a handler that receives the user (the write endpoint). -/
+theorem exempt_routes_exactly :
+    (∀ r ∈ builtinRoutes, r.bypass = true →
+      r.method = "GET".toList ∧ "/kapacitor/v1/debug/".toList.isPrefixOf r.pattern = true ∧ r.kind = .other) ∧
+    (builtinRoutes.filter (·.bypass)).length = 6 ∧
+    (∀ (cfg : Cfg) (r : Route), routeRequiresAuth cfg r = false → cfg.requireAuth = true →
+      r.bypass = true ∧ r.forward = false ∧ cfg.exposePprof = true) := by
+  refine ⟨bypass_route_facts, by decide, ?_⟩
+  intro cfg r h ha
+  unfold routeRequiresAuth at h
+  cases hf : r.forward <;> cases hb : r.bypass <;> cases hp : cfg.exposePprof <;> simp_all
 
-/-- **served ⇒ authorised**: … and that account may perform the method on the API resource of the URL path
-according to the statement (`Spec.servedOK`, the very oracle the driver evaluates on the real handler). -/
-theorem served_only_if_authorised (cfg : Cfg) (hextra : ∀ r ∈ cfg.extra, r.kind = .recorder) (req : Req)
+/-- **unauthenticated_never_served**: with authentication enabled, whenever ANY route handler of the regenerated
+route table (or an ordinary added route) ran or points were written, the URL path was not a path trick and the
+request either presented valid credentials (password, bearer token or subscription token) for an account of the
+auth service, or is one of the exempt profiling pages (`Spec.exempt`: pprof exposed, GET, below /debug/). -/
+theorem unauthenticated_never_served (cfg : Cfg) (hauth : cfg.requireAuth = true)
+    (hextra : ∀ r ∈ cfg.extra, r.kind = .recorder ∧ r.bypass = false) (fuel : Nat) (req : Req)
+    (h : (serveHTTP cfg fuel req).served = true ∨ (serveHTTP cfg fuel req).wrote = true) :
+    (validAccounts cfg.svc req.auth ≠ [] ∨ exempt cfg.exposePprof req = true) ∧ muxCleanPath req.path = req.path := by
+  have hs := serveHTTP_sound cfg hextra fuel req _ rfl h
+  obtain ⟨r, acc, w, hmm, hau, _, _⟩ := hs.chain
+  refine ⟨?_, hs.cleanPath⟩
+  cases hra : routeRequiresAuth cfg r with
+  | true =>
+    rw [hra] at hau
+    have := (authenticate_valid cfg.svc req.auth acc w hau).2
+    left; intro e; rw [e] at this; cases this
+  | false =>
+    right
+    obtain ⟨hmem, hrm, hpm⟩ := route_mem cfg hextra r _ _ hmm
+    have hx := exempt_routes_exactly.2.2 cfg r hra hauth
+    rcases hmem with hb | he
+    · obtain ⟨hget, hpre, _⟩ := bypass_route_facts r hb hx.1
+      unfold exempt
+      rw [hx.2.2, ← hrm, hget, pathMatch_prefix _ _ _ hpm hpre]
+      decide
+    · rw [he.2] at hx; cases hx.1
+
+/-- A write is never exempt: points are written only with valid credentials, whatever pprof is set to. -/
+theorem write_never_exempt (cfg : Cfg) (hauth : cfg.requireAuth = true)
+    (hextra : ∀ r ∈ cfg.extra, r.kind = .recorder ∧ r.bypass = false) (fuel : Nat) (req : Req)
+    (h : (serveHTTP cfg fuel req).wrote = true) : validAccounts cfg.svc req.auth ≠ [] := by
+  have hs := serveHTTP_sound cfg hextra fuel req _ rfl (Or.inr h)
+  obtain ⟨r, acc, w, _, hau, _, hw⟩ := hs.chain
+  rw [(hw h).1, hauth] at hau
+  have := (authenticate_valid cfg.svc req.auth acc w hau).2
+  intro e; rw [e] at this; cases this
+
+/-- **served ⇒ authorised**: … and unless exempt, a valid account may perform the method on the API resource of
+the URL path according to the statement (`Spec.servedOK`, the very oracle the driver evaluates on the real handler). -/
+theorem served_only_if_authorised (cfg : Cfg) (hextra : ∀ r ∈ cfg.extra, r.kind = .recorder ∧ r.bypass = false) (req : Req)
     (hv : ∀ acc ∈ validAccounts cfg.svc req.auth, ∀ g ∈ acc.grants, g.2.all validPriv = true)
     (fuel : Nat)
     (h : (serveHTTP cfg fuel req).served = true ∨ (serveHTTP cfg fuel req).wrote = true) :
-    servedOK cfg.requireAuth cfg.svc req = true := by
-  obtain ⟨_, hm, acc, w, hau, haz, _⟩ := serveHTTP_sound cfg hextra fuel req _ rfl h
+    servedOK cfg.requireAuth cfg.exposePprof cfg.svc req = true := by
+  have hs := serveHTTP_sound cfg hextra fuel req _ rfl h
+  obtain ⟨r, acc, w, hmm, hau, haz, _⟩ := hs.chain
+  have hm := hs.method
   unfold servedOK
   cases hra : cfg.requireAuth with
   | false => simp
   | true =>
-    rw [hra] at hau
-    have hmem := (authenticate_valid cfg.svc req.auth acc w hau).2
-    simp only [Bool.not_true, Bool.false_or]
-    unfold authorizeRequest at haz
-    cases hr : requiredPrivilege req.method with
-    | priv p =>
-      rw [hr] at haz
-      simp only [decide_eq_true_eq] at haz
-      obtain ⟨p', hp1, hp2, hp3⟩ := requiredPrivilege_spec req.method hm
-      rw [hr] at hp1; injection hp1 with hp1; subst hp1
-      rw [hp2]
-      simp only [List.any_eq_true]
-      refine ⟨acc, hmem, ?_⟩
-      rw [← mayAllow_congr acc _ _ p (apiResource_node req.path)]
-      exact allow_mayAllow acc _ p (hv acc hmem) hp3 haz
-    | unknownMethod => rw [hr] at haz; cases haz
-    | unrecognised => rw [hr] at haz; cases haz
+    cases hex : exempt cfg.exposePprof req with
+    | true => simp
+    | false =>
+      have hne := (unauthenticated_never_served cfg hra hextra fuel req h).1
+      cases hrr : routeRequiresAuth cfg r with
+      | false =>
+        -- an exempt route: contradiction with hex
+        exfalso
+        obtain ⟨hmem, hrm, hpm⟩ := route_mem cfg hextra r _ _ hmm
+        have hx := exempt_routes_exactly.2.2 cfg r hrr hra
+        rcases hmem with hb | he
+        · obtain ⟨hget, hpre, _⟩ := bypass_route_facts r hb hx.1
+          unfold exempt at hex
+          rw [hx.2.2, ← hrm, hget, pathMatch_prefix _ _ _ hpm hpre] at hex
+          revert hex; decide
+        · rw [he.2] at hx; cases hx.1
+      | true =>
+        rw [hrr] at hau
+        have hmem := (authenticate_valid cfg.svc req.auth acc w hau).2
+        simp only [Bool.not_true, Bool.false_or]
+        unfold authorizeRequest at haz
+        cases hr : requiredPrivilege req.method with
+        | priv p =>
+          rw [hr] at haz
+          simp only [decide_eq_true_eq] at haz
+          obtain ⟨p', hp1, hp2, hp3⟩ := requiredPrivilege_spec req.method hm
+          rw [hr] at hp1; injection hp1 with hp1; subst hp1
+          rw [hp2]
+          simp only [List.any_eq_true]
+          refine ⟨acc, hmem, ?_⟩
+          rw [← mayAllow_congr acc _ _ p (apiResource_node req.path)]
+          exact allow_mayAllow acc _ p (hv acc hmem) hp3 haz
+        | unknownMethod => rw [hr] at haz; cases haz
+        | unrecognised => rw [hr] at haz; cases haz
 
 /-- **write_checks_database**: points are written only if the same valid account holds `write` on the API
 resource of the URL path AND on the resource of the target database (`Spec.wroteOK`). -/
-theorem write_checks_database (cfg : Cfg) (hextra : ∀ r ∈ cfg.extra, r.kind = .recorder) (req : Req)
+theorem write_checks_database (cfg : Cfg) (hextra : ∀ r ∈ cfg.extra, r.kind = .recorder ∧ r.bypass = false) (req : Req)
     (hv : ∀ acc ∈ validAccounts cfg.svc req.auth, ∀ g ∈ acc.grants, g.2.all validPriv = true)
     (fuel : Nat) (h : (serveHTTP cfg fuel req).wrote = true) :
     wroteOK databaseResource cfg.requireAuth cfg.svc req = true := by
-  obtain ⟨_, _, acc, w, hau, haz, hw⟩ := serveHTTP_sound cfg hextra fuel req _ rfl (Or.inr h)
-  obtain ⟨hpost, hdb⟩ := hw h
+  have hs := serveHTTP_sound cfg hextra fuel req _ rfl (Or.inr h)
+  obtain ⟨r, acc, w, _, hau, haz, hw⟩ := hs.chain
+  obtain ⟨hrr, hpost, hdb⟩ := hw h
   unfold wroteOK
   cases hra : cfg.requireAuth with
   | false => simp
   | true =>
-    rw [hra] at hau
+    rw [hrr, hra] at hau
     have hmem := (authenticate_valid cfg.svc req.auth acc w hau).2
     simp only [Bool.not_true, Bool.false_or, List.any_eq_true, Bool.and_eq_true]
     refine ⟨acc, hmem, ?_, ?_⟩
@@ -265,6 +347,12 @@ theorem write_checks_database (cfg : Cfg) (hextra : ∀ r ∈ cfg.extra, r.kind 
       rw [← mayAllow_congr acc _ _ pWrite (apiResource_node req.path)]
       exact allow_mayAllow acc _ 4 (hv acc hmem) (by decide) haz
     · exact allow_mayAllow acc _ 4 (hv acc hmem) (by decide) hdb
+
+/-- **rewritePreview re-enters the handler at most once**: two passes decide every request (more fuel changes
+nothing), and the model's "fuel exhausted" answer 508 never shows. -/
+theorem preview_depth_one (cfg : Cfg) (hextra : ∀ r ∈ cfg.extra, r.kind = .recorder ∧ r.bypass = false) (f : Nat) (req : Req) :
+    serveHTTP cfg (f + 2) req = serveHTTP cfg 2 req ∧ (serveHTTP cfg (f + 2) req).status ≠ 508 :=
+  ⟨serveHTTP_depth cfg hextra f req, serveHTTP_never_exhausted cfg hextra f req⟩
 
 /-! ### Database resources -/
 
@@ -308,23 +396,30 @@ example : nodeOf "/a/b/../c//".toList = nodeOf "/a/./c".toList ∧ "/a/b/../c//"
 -- `decision_within_bounds` / `served_only_if_authorised`: a well-formed table, a valid privilege
 example : let acc : Account := { grants := [("/api/tasks".toList, [2, 4]), ("/api".toList, [16, 2])] }
     (∀ g ∈ acc.grants, g.2.all validPriv = true) ∧ validPriv 4 = true ∧
-    mustAllow acc "/api/tasks/x".toList 4 = true ∧ mayAllow acc "/api/tasks/x".toList 8 = false ∧
-    -- the gap between the bounds: `all` listed together with another privilege
-    mayAllow acc "/api/other".toList 4 = true ∧ mustAllow acc "/api/other".toList 4 = false ∧
-    authorizeAction acc.user "/api/other".toList 4 = .deny := by decide
+    mayAllow acc "/api/tasks/x".toList 4 = true ∧ mayAllow acc "/api/tasks/x".toList 8 = false ∧
+    -- `all` listed together with another privilege grants everything (fix d662ebb)
+    mayAllow acc "/api/other".toList 4 = true ∧ authorizeAction acc.user "/api/other".toList 4 = .allow := by decide
+
+-- `newUser_order_independent`: two spellings of one node, both orders, same (united) decision
+example : authorizeAction (newUser false [("/a".toList, [2]), ("/a/".toList, [4])]) "/a".toList 4 = .allow ∧
+    authorizeAction (newUser false [("/a/".toList, [4]), ("/a".toList, [2])]) "/a".toList 2 = .allow := by decide
 
 -- `unauthenticated_never_served` / `write_checks_database`: a request that IS served and one that writes
 example :
     let alice : Account := { grants := [("/api".toList, [2, 4]), ("/database/db_clean".toList, [4])] }
     let cfg : Cfg := { requireAuth := true, svc := { users := [("alice".toList, "pw".toList, alice)] },
-                       extra := [⟨"GET".toList, "/kapacitor/v1/tasks".toList, .recorder⟩] }
+                       extra := [{ method := "GET".toList, pattern := "/kapacitor/v1/tasks".toList, kind := .recorder }] }
     let cred : ReqAuth := { header := .basic "alice".toList "pw".toList }
-    (∀ r ∈ cfg.extra, r.kind = .recorder) ∧
+    (∀ r ∈ cfg.extra, r.kind = .recorder ∧ r.bypass = false) ∧
     (serveHTTP cfg 2 { method := "GET".toList, path := "/kapacitor/v1/tasks".toList, auth := cred }).served = true ∧
     (serveHTTP cfg 2 { method := "POST".toList, path := "/kapacitor/v1/write".toList, auth := cred, db := "db".toList }).wrote = true ∧
     (serveHTTP cfg 2 { method := "POST".toList, path := "/kapacitor/v1/write".toList, auth := cred, db := "other".toList }).status = 401 ∧
     (serveHTTP cfg 2 { method := "POST".toList, path := "/kapacitor/v1preview/write".toList, auth := cred, db := "db".toList }).wrote = true ∧
-    (serveHTTP cfg 2 { method := "GET".toList, path := "/kapacitor/v1/tasks".toList }).status = 401 := by
+    (serveHTTP cfg 2 { method := "GET".toList, path := "/kapacitor/v1/tasks".toList }).status = 401 ∧
+    -- the exempt pages: served without credentials only when pprof is exposed
+    (serveHTTP cfg 2 { method := "GET".toList, path := "/kapacitor/v1/debug/vars".toList }).status = 401 ∧
+    (serveHTTP { cfg with exposePprof := true } 2 { method := "GET".toList, path := "/kapacitor/v1/debug/vars".toList }).served = true ∧
+    (serveHTTP { cfg with exposePprof := true } 2 { method := "GET".toList, path := "/kapacitor/v1/ping".toList }).status = 401 := by
   decide
 
 -- `database_resource_injective_partial`: its hypothesis holds for ordinary names
